@@ -575,52 +575,6 @@ guess_registry_for_key(const std::string& key_std)
   return -1;
 }
 
-// Entries excluded by construction because of a confirmed defect (work/notes/C17_findings.md); VERIF_NO_EXCLUDE=1 runs them.
-//  F1: ChainedBinNormalisation::post_processing dereferences the null apply_first/apply_second when the two
-//      "Bin Normalisation to apply ..." keys are absent or None (segmentation fault instead of an error)
-std::string
-excluded_signature(const std::string& reg, const std::string& name_std, const std::string& text, bool honour_env = true)
-{
-  if (honour_env && c17::no_exclude())
-    return "";
-  //  F2: BinNormalisationFromECAT8::read_norm_data ignores the result of InterfileNormHeaderSiemens::parse and
-  //      dereferences the null data_info_ptr when the norm file cannot be opened/parsed (always the case here)
-  if (reg == "BinNormalisation" && name_std == "from ecat8")
-    return "C17:registry:BinNormalisation/From ECAT8:unreadable norm file";
-  for (const std::string& l : c17::split_lines(text)) // the same type nested in another object
-    {
-      const auto p = l.find(":=");
-      if (p != std::string::npos && c17::ref_standardise(l.substr(p + 2)) == "from ecat8")
-        return "C17:registry:BinNormalisation/From ECAT8:unreadable norm file";
-    }
-  bool nested_chained = false;
-  for (const std::string& l : c17::split_lines(text))
-    {
-      const auto p = l.find(":=");
-      if (p != std::string::npos && c17::ref_standardise(l.substr(p + 2)) == "chained"
-          && c17::ref_standardise(l.substr(0, p)).find("normalisation") != std::string::npos)
-        nested_chained = true;
-    }
-  if ((reg == "BinNormalisation" && name_std == "chained") || nested_chained)
-    {
-      // both nested keys must name a type for the defect not to trigger
-      int named = 0;
-      for (const std::string& l : c17::split_lines(text))
-        {
-          const auto p = l.find(":=");
-          if (p == std::string::npos)
-            continue;
-          const std::string k = c17::ref_standardise(l.substr(0, p));
-          const std::string v = c17::ref_standardise(l.substr(p + 2));
-          if ((k == "bin normalisation to apply first" || k == "bin normalisation to apply second") && !v.empty() && v != "none")
-            ++named;
-        }
-      if (named < 2)
-        return "C17:registry:BinNormalisation/Chained:null sub-normalisation";
-    }
-  return "";
-}
-
 // ---- "workable" texts ---------------------------------------------------------------------------
 // Many defaults are deliberately invalid (zero lengths, no projection matrix, no file name).  At start-up the
 // harness derives, deterministically, for every entry a text that the entry's own parser accepts, if it can:
@@ -654,8 +608,6 @@ workable()
   built = true;
   auto& R = registries();
   auto accepts = [&](Reg& r, Entry& e, const std::string& text) {
-    if (!excluded_signature(r.name, c17::ref_standardise(e.name), text, false).empty())
-      return false;
     std::string why;
     try
       {
@@ -910,14 +862,6 @@ check(const json& c)
       }
   const std::string G = c17::join_lines(lines);
   const bool edited = changed_lines > 0;
-
-  const std::string sig = excluded_signature(r.name, c17::ref_standardise(name), G);
-  if (!sig.empty())
-    {
-      stats().excluded_known++;
-      stats().count("excluded:" + sig);
-      return Result::reject("known:" + sig);
-    }
 
   auto o1 = parse_text(r, name, G, why);
   if (!o1)
